@@ -349,7 +349,8 @@ def gen_module(rng, force=None):
         elif k < 0.8:
             out += gen_class(c, "", 0)
         elif k < 0.88:
-            out.append(r.choice(["X = 1", "Y: int = 2", "Z: str", "NAMES = ['a', 'b']", "T = Tuple[()]"]))
+            # incl. a form-feed page break on its own line and control characters inside a string literal (legal source; str.splitlines would split there)
+            out.append(r.choice(["X = 1", "Y: int = 2", "Z: str", "NAMES = ['a', 'b']", "T = Tuple[()]", "\x0c", "PAGE_BREAK = 'a\x0cb'", "SEP = 'x\x1cy\x85z'"]))
         else:
             out.append(r.choice(COMMENTS))
         out += [""] * r.choice([0, 1, 2, 2])
